@@ -37,6 +37,9 @@ Inductive query :=
 | QZeroIter (k : N) (out : ires (list (N * N)))
 (* one_iter() driven by a pattern: false = next(), true = next_back() *)
 | QOneIter (pat : list bool) (out : ires (list (option (N * N))))
+(* the iterator returned by successor(v) / predecessor(v) driven by a pattern (it is double-ended too) *)
+| QSuccD (v : N) (pat : list bool) (out : ires (list (option (N * N))))
+| QPredD (v : N) (pat : list bool) (out : ires (list (option (N * N))))
 (* iter() driven by a pattern *)
 | QBits (pat : list bool) (out : ires (list (option bool)))
 | QIsMulti (out : ires bool).
@@ -73,6 +76,8 @@ Definition model_query (q : query) : bool :=
   | QSel0Iter r k out => res_agree nnlist_eqb (let* z := sv_select_zero_iter sp m sv r in zi_take m sv (N.to_nat k) z) out
   | QZeroIter k out => res_agree nnlist_eqb (let* z := sv_zero_iter m sv in zi_take m sv (N.to_nat k) z) out
   | QOneIter pat out => res_agree (list_eqb onn_eqb) (it_drive m sv pat (sv_one_iter sv)) out
+  | QSuccD v pat out => res_agree (list_eqb onn_eqb) (let* it := sv_successor sp m sv v in it_drive m sv pat it) out
+  | QPredD v pat out => res_agree (list_eqb onn_eqb) (let* it := sv_predecessor sp m sv v in it_drive m sv pat it) out
   | QBits pat out => res_agree (list_eqb (opt_eqb Bool.eqb)) (let* s := sv_iter_new m sv in sbi_drive m sv pat s) out
   | QIsMulti out => res_agree Bool.eqb (sv_is_multiset m sv) out
   end.
@@ -98,6 +103,8 @@ Definition spec_query (zq : bool) (n : N) (vs : list N) (q : query) : bool :=
   | QSel0Iter r k out => if zq then ires_is nnlist_eqb out (vs_zeros_from vs n r (N.to_nat k)) else true
   | QZeroIter k out => if zq then ires_is nnlist_eqb out (vs_zeros_from vs n 0 (N.to_nat k)) else true
   | QOneIter pat out => ires_is (list_eqb onn_eqb) out (deque_run (vs_ranked vs) pat)
+  | QSuccD v pat out => ires_is (list_eqb onn_eqb) out (deque_run (vs_succ vs v) pat)
+  | QPredD v pat out => ires_is (list_eqb onn_eqb) out (deque_run (vs_pred vs v) pat)
   | QBits pat out => ires_is (list_eqb (opt_eqb Bool.eqb)) out (deque_run (vs_bits vs n) pat)
   | QIsMulti out => ires_is Bool.eqb out (has_dup vs)
   end.
